@@ -75,6 +75,7 @@ type Exec struct {
 	exits         int
 	substrOf      map[string]string
 	inputTerms    map[string]string
+	preLocks      int
 }
 
 type execMode struct {
@@ -476,11 +477,11 @@ func (ex *Exec) loopHeader(st *State, b *ssa.BasicBlock) bool {
 		ex.subsetFail(st, "loop-without-invariant:"+key)
 		return true
 	}
+	st.preHeap = st.snapshotHeap()
 	for _, inv := range invs {
 		g := ex.evalBool(st, inv.expr, nil)
 		ex.record(st, fmt.Sprintf("%s/inv-entry:%s:%s", ex.rootName, key, inv.label), "invariant", g, inv.src)
 	}
-	st.preHeap = st.snapshotHeap()
 	// write set by dry run
 	regs, cells := ex.collectWrites(st, b)
 	for _, r := range regs {
@@ -928,6 +929,13 @@ func (ex *Exec) unop(st *State, in *ssa.UnOp) Val {
 			path, _ := pathOf(x.Root, x.Path)
 			ex.guardCheck(st, x.Root, path, x.Base, in, false)
 		}
+		if x.K == KHeapPtr && x.Root != nil && v.K == KTerm && v.Typ != nil && v.Meta == nil {
+			if _, isMap := v.Typ.Underlying().(*types.Map); isMap {
+				path, _ := pathOf(x.Root, x.Path)
+				v.Base = x.Base
+				v.Meta = guardOrigin{x.Root, path}
+			}
+		}
 		// loaded references are allocated (well-typed heap)
 		if _, lit := isIntLit(v.T); v.K == KTerm && v.Typ != nil && x.K != KCellPtr && !lit {
 			switch v.Typ.Underlying().(type) {
@@ -1233,6 +1241,20 @@ func (ex *Exec) makeInterface(st *State, in *ssa.MakeInterface) Val {
 		s := scalarSort(xt)
 		reg := "I!" + s
 		st.setRegion(reg, arr("Int", s), store(st.region(reg, arr("Int", s)), r, x.T))
+	} else if x.K == KStruct || x.K == KSlice {
+		// composite payloads are stored leaf by leaf under I!<type>.<path>
+		func() {
+			defer func() { recover() }()
+			lfs := leaves(xt)
+			ts := flatten(x, ex)
+			if len(lfs) != len(ts) || len(lfs) > 12 {
+				return
+			}
+			for i, lf := range lfs {
+				reg := "I!" + typeName(xt) + "." + lf.path
+				st.setRegion(reg, arr("Int", lf.sort), store(st.region(reg, arr("Int", lf.sort)), r, ts[i]))
+			}
+		}()
 	}
 	v := term(r, in.Type())
 	v.Meta = x // keep the boxed value for executor-level consumers (fmt verbs, %w)
@@ -1370,7 +1392,7 @@ func (ex *Exec) sliceInstr(st *State, in *ssa.Slice) Val {
 func (st *State) sliceGet(s Val, i string) Val {
 	et := s.Typ.Underlying().(*types.Slice).Elem()
 	reg, sort := sliceRegion(et)
-	return term(sel(sel(st.region(reg, sort), s.Fs[0].T), "(+ "+s.Fs[1].T+" "+i+")"), et)
+	return term(sel(sel(st.region(reg, sort), s.Fs[0].T), addT(s.Fs[1].T, i)), et)
 }
 
 func (ex *Exec) appendSlice(st *State, s Val, elems []Val, typ types.Type) Val {
@@ -1381,7 +1403,7 @@ func (ex *Exec) appendSlice(st *State, s Val, elems []Val, typ types.Type) Val {
 	content := sel(a, s.Fs[0].T)
 	ln := s.Fs[2].T
 	for k, e := range elems {
-		content = store(content, "(+ "+s.Fs[1].T+" "+ln+" "+strconv.Itoa(k)+")", ex.asTerm(e))
+		content = store(content, addT(addT(s.Fs[1].T, ln), strconv.Itoa(k)), ex.asTerm(e))
 	}
 	st.setRegion(reg, sort, store(a, id, content))
 	nl := "(+ " + ln + " " + strconv.Itoa(len(elems)) + ")"
